@@ -221,6 +221,23 @@ func (m *Model) funcValueTargets(v ssa.Value) []*ssa.Function {
 		return []*ssa.Function{m.unwrapBound(x)}
 	case *ssa.ChangeType:
 		return m.funcValueTargets(x.X)
+	case *ssa.Call:
+		// a closure factory: the function values a library function returns
+		if g := x.Call.StaticCallee(); g != nil && m.isLib(g) && g.Blocks != nil && g.Signature.Results().Len() == 1 {
+			if _, isSig := g.Signature.Results().At(0).Type().Underlying().(*types.Signature); isSig {
+				var out []*ssa.Function
+				for _, b := range liveBlocks(g) {
+					if ret, ok := b.Instrs[len(b.Instrs)-1].(*ssa.Return); ok && b != g.Recover {
+						for _, t := range m.funcValueTargets(returnValue(ret, 0)) {
+							if !containsFn(out, t) {
+								out = append(out, t)
+							}
+						}
+					}
+				}
+				return out
+			}
+		}
 	case *ssa.UnOp:
 		// a function value kept in a local cell
 		if al := m.Sym.resolveCell(x.X); al != nil {
@@ -1075,6 +1092,28 @@ func (m *Model) gatedInUnit(unit *ssa.Function, v ssa.Value) string {
 		}
 	}
 	return substSym(m.Sym.Of(v), sub).String()
+}
+
+// resultOfFrameFunction: the literal tests the result of a function that lies on the frame's own
+// call chain to the operation (the function that contains the operation, or one that calls it).
+func (m *Model) resultOfFrameFunction(l Lit, fr OpFrame, op ssa.Instruction) bool {
+	call, _, _, _, ok := m.resultTest(l)
+	if !ok {
+		return false
+	}
+	g := call.Call.StaticCallee()
+	if g == nil {
+		return false
+	}
+	if op.Parent() == g {
+		return true
+	}
+	for _, ci := range fr.Chain {
+		if ci.Parent() == g {
+			return true
+		}
+	}
+	return false
 }
 
 // isWaitHelperResult: the literal tests the result of a wait helper - a loop-free library function
